@@ -101,10 +101,9 @@ m("c18-replace-pushes-nothing", "C18", EN,
   "                    YAMLDecodingTrap::Replace => {\n                        output.push('\\u{FFFD}');\n                    }",
   "                    YAMLDecodingTrap::Replace => {}",
   "Replace behaves like Ignore")
-m("c18-strict-byte-idx", "C18", EN,
-  "                        let byte_idx = total_bytes_read - (malformed_len + bytes_after_malformed);\n                        let malformed_sequence = &input[byte_idx..byte_idx + malformed_len];\n\n                        break Err",
-  "                        let byte_idx = total_bytes_read - malformed_len;\n                        let malformed_sequence = &input[byte_idx..byte_idx + malformed_len];\n\n                        break Err",
-  "Strict error context ignores the look-ahead bytes the decoder consumed")
+# (c18-strict-byte-idx, "Strict error context ignores bytes_after_malformed", was removed: it is an
+#  equivalent mutant — encoding_rs reports 0 look-ahead bytes for UTF-8 and UTF-16, the only
+#  encodings YamlDecoder can select.)
 m("c18-break-arms-swapped", "C18", EN,
   "                            if error.is_empty() {",
   "                            if !error.is_empty() {",
